@@ -205,7 +205,10 @@ impl Engine for C13 {
                 let oom = if rng.chance(1, 6) { Some(16 * rng.below(40)) } else { None };
                 ops.push(json!({ "op": "reroot", "slot": rng.below(slots), "vm": v, "t": t, "oom": oom }));
                 slots += 1;
-            } else if roll < 58 {
+            } else if roll < 54 {
+                ops.push(json!({ "op": "pusharg", "slot": rng.below(slots), "vm": v, "t": t }));
+                slots += 1;
+            } else if roll < 60 {
                 let (prog, callable) = value_program(rng);
                 ops.push(json!({ "op": "chan", "vm": v, "t": t, "prog": prog, "callable": callable }));
                 slots += 1;
@@ -369,6 +372,53 @@ impl Engine for C13 {
                             log.push(format!("reroot slot {} failed under memory limit", s));
                             world.slots.push(None);
                         }
+                    }
+                }
+                "pusharg" => {
+                    // the foreign handle is pushed as an argument of a function of the target
+                    // thread (`Pushable for RootedValue` decides whether and how deep to copy)
+                    let s = op["slot"].as_u64().unwrap_or(0) as usize % world.slots.len().max(1);
+                    let Some((t, thread)) = live_thread(&world, v, t_req) else { continue };
+                    let Some(Some(slot)) = world.slots.get(s) else {
+                        world.slots.push(None);
+                        continue;
+                    };
+                    let pair_src = format!("{}(\\x -> {{ a = x, b = x }})\n", gen::PREAMBLE);
+                    let call_pair = |on: &RootedThread, arg: &Val, name: &str| -> Result<Val, String> {
+                        let (f, _) = on
+                            .run_expr::<OpaqueValue<RootedThread, Hole>>(name, &pair_src)
+                            .map_err(|e| e.to_string())?;
+                        let mut f: OwnedFunction<fn(OpaqueValue<RootedThread, Hole>) -> OpaqueValue<RootedThread, Hole>> =
+                            Getable::from_value(on, f.get_variant());
+                        f.call(OpaqueValue::from_value(arg.clone()))
+                            .map(|v| v.into_inner())
+                            .map_err(|e| e.to_string())
+                    };
+                    let sender_thread = slot.value.vm().clone();
+                    let expected = call_pair(&sender_thread, &slot.value, &format!("pair_s{}", i));
+                    let got = call_pair(&thread, &slot.value, &format!("pair_r{}", i));
+                    match (expected, got) {
+                        (Ok(e), Ok(g)) => {
+                            transfers += 1;
+                            run::count("transfer_pusharg", 1);
+                            let (ee, ge) = (e.get_variant().verif_encode_graph(), g.get_variant().verif_encode_graph());
+                            if ee != ge {
+                                return Err(Violation::new(
+                                    "not-isomorphic",
+                                    format!("a handle of vm{} t{} pushed as an argument on vm{} t{}: sender side `{}` receiver side `{}`", slot.vm, slot.t, v, t, clip(&ee), clip(&ge)),
+                                ));
+                            }
+                            let origin = world.slots.len();
+                            world.origin_vm.insert(origin, v);
+                            world.slots.push(Some(Slot { vm: v, t, value: g, encoding: ge, origin, callable: false }));
+                        }
+                        (Ok(_), Err(e)) => {
+                            return Err(Violation::new(
+                                "transfer-failed",
+                                format!("pushing a handle of vm{} t{} as an argument on vm{} t{} failed: {}", slot.vm, slot.t, v, t, e.lines().next().unwrap_or("")),
+                            ));
+                        }
+                        _ => world.slots.push(None),
                     }
                 }
                 "collect" => {
